@@ -15,7 +15,7 @@ CONSTANTS
   TreeIds = {1, 3, 4, 5, 6}
   SparseIds = {}
   XP = "respect"
-  Strict = FALSE
+  Strict = "none"
   Emit = FALSE
 INVARIANTS Inv_Contracts Inv_NoStrayMarker Inv_TreeWellFormed Inv_Outside
 VIEW View
